@@ -31,8 +31,8 @@ GRIDS = {
 }
 OPS = ['h', 'cet', 'utc', 'q15', 'short', 'same', 'split', 'costs']
 FINALS = ['h', 'cet', 'q15', 'short', 'utc']
-PORTFOLIOS = ['dicts', 'wrappers', 'orderbook']
-NAIVE_ONLY = {'orderbook'}      # order dates are naive: EAO compares them with the grid points as they are
+PORTFOLIOS = ['dicts', 'wrappers', 'orderbook', 'classes']
+NAIVE_ONLY = {'orderbook', 'classes'}      # order dates are naive: EAO compares them with the grid points as they are
 
 
 def cases(tier, seed):
@@ -88,6 +88,23 @@ def mk_portfolio(D, kind):
         late.start, late.end = h(1), h(3)
         tr = shapes.mk_transport(D, 'tr', nA, nB, eff=0.5)
         return eao.portfolio.Portfolio([ct, co, tr, late])
+    if kind == 'classes':
+        # one asset of each further class, every one with its own window and/or discount rate, so that anything a previous asset left
+        # on the shared grid (restricted grid, discount factors) would show in the next one
+        nG = shapes.nodes('G')[0]
+        tgh = mk_grid('h')
+        pl = shapes.mk_plant(D, 'pl', [nA, nG], 0, price='p', fuel=True, heat=False, mr=2, ramp=True, tg=tgh)
+        pl.start, pl.end, pl.wacc = h(1), h(4), D('wacc_pl', lo=0)
+        mc = eao.assets.MultiCommodityContract(name='mc', nodes=[nA, nB], price='q', min_cap=D('mc_min', hi=0), max_cap=D('mc_max', lo=0),
+                                               factors_commodities=[1.0, 0.5], start=h(0), end=h(3), wacc=D('wacc_mc', lo=0))
+        xt = shapes.mk_transport(D, 'xt', nA, nB, eff=0.5, cls=eao.assets.ExtendedTransport,
+                                 max_take={'start': [h(0)], 'end': [h(2)], 'values': [D('xt_take', lo=0)]})
+        xt.start, xt.end = h(1), h(3)
+        st = shapes.mk_storage(D, 'sto', nB, eff=0.75)
+        st.start, st.end, st.wacc = h(0), h(2), 0
+        mG = shapes.mk_market(D, 'mG', nG, 0, 'p')
+        mB = shapes.mk_market(D, 'mB', nB, 0, 'q', wacc=0)
+        return eao.portfolio.Portfolio([pl, mc, xt, st, mG, mB])
     if kind == 'orderbook':
         # the order book is handled right after an asset with its own window and discount rate (stale grid caches would show)
         m = shapes.mk_market(D, 'mB', nB, 0, 'p', ec=True)
